@@ -423,7 +423,7 @@ fn holder_history(ctx: &Ctx, case: u64, l: &mut Local) {
         l.evals += 1;
         if with_failures && r.chance(35) {
             let sel_ok = pipeline::random_selection(&mut r, &s.u);
-            let kind = r.below(13);
+            let kind = r.below(14);
             type A = (Value, Option<String>, Option<String>, Option<(Alg, usize)>, Option<String>);
             let args: A = match kind {
                 0 => (sel_ok.clone(), Some("n".into()), None, None, None),
@@ -435,6 +435,8 @@ fn holder_history(ctx: &Ctx, case: u64, l: &mut Local) {
                 5 => (sel_ok.clone(), Some(String::new()), Some(String::new()), None, None),
                 6 => (sel_ok.clone(), Some(String::new()), None, None, None),
                 7 => (sel_ok.clone(), None, Some(String::new()), None, None),
+                // nonce and aud but NO key (with or without an algorithm name)
+                12 => (sel_ok.clone(), Some("n".into()), Some("a".into()), None, if r.chance(50) { Some("ES256".into()) } else { None }),
                 // complete key-binding arguments, well-known algorithm name that does not fit the key
                 // (fails late: after the disclosures were selected and the sd_hash was computed)
                 11 => {
